@@ -111,6 +111,9 @@ Sl(T, es)   == [k |-> "slice", n |-> 0, s |-> T, re |-> FALSE, fs |-> es]
 \* arguments Var cannot validate: a struct value, a nil interface (the call ends early with one error)
 BadVar == [k |-> "badvar", n |-> 0, s |-> "", re |-> FALSE, fs |-> <<>>]
 NilVar == [k |-> "nilvar", n |-> 0, s |-> "", re |-> FALSE, fs |-> <<>>]
+\* a non-zero array of a type NO EARLIER CALL has used (the harness gives every such call a new array length): whatever
+\* the library remembers per type is written for the first time, possibly by several calls at once
+ArrVar == [k |-> "arrvar", n |-> 0, s |-> "", re |-> FALSE, fs |-> <<>>]
 Sdash  == S(DtDash, 19, FALSE)
 Sslash == S(DtSlash, 19, FALSE)
 Sab == S("ab", 2, TRUE)
@@ -192,7 +195,12 @@ Menu12 == <<
   \* Url: a pair that cannot be decoded after a good one (some error; which clauses accompany it is not fixed), and a query
   \* that lacks a key its rule map requires
   DUrl("m24", <<E("u1", Sab), E("u2", S("%zz", 3, FALSE))>>, <<RME("u1", <<R_req>>), RME("u2", <<R_req>>)>>, <<>>),
-  DUrl("m25", <<E("u2", Sab)>>, <<RME("u1", <<R_reqm("u1 must be given")>>), RME("u2", <<R_req>>)>>, <<>>) >>
+  DUrl("m25", <<E("u2", Sab)>>, <<RME("u1", <<R_reqm("u1 must be given")>>), RME("u2", <<R_req>>)>>, <<>>),
+  DVar("m26", ArrVar, <<R_req>>, <<>>),                   \* required on a non-zero array of a brand-new type: satisfied
+  \* cross-key groups in Url and Map calls (no per-call function): all members empty - one group clause
+  DUrl("m27", <<E("u1", Se), E("u2", Se), E("u3", Sab)>>, <<RME("u1", <<R_either>>), RME("u2", <<R_either>>), RME("u3", <<R_req>>)>>, <<>>),
+  DMap("m28", <<E("k1", I(0)), E("k2", I(0))>>, <<RME("k1", <<R_either>>), RME("k2", <<R_either>>)>>, <<>>),
+  DUrl("m29", <<E("u1", Se), E("u2", Sab)>>, <<RME("u1", <<R_either>>), RME("u2", <<R_either>>)>>, <<>>) >>  \* one member set: satisfied
 \* descriptors on which the contract fixes only THAT the call fails
 FreeKeys == {"m24"}
 
@@ -299,7 +307,18 @@ EvGroups(cfg, T, v) ==
   THEN <<Cl("PoolsT4.E1", "other", ", \"PoolsT4.E2\" explain: they shouldn't all be empty", "")>>
   ELSE <<>>
 
+\* the group of a Map / Url call: the keys whose rule list holds either=1; violated iff every member is empty; one clause
+\* naming the members - in query order for a Url, in EITHER order for the two members of a Map (Go map iteration)
+GroupText == " explain: they shouldn't all be empty"
+KVMembers(d, cfg) == SelectSeq(d.entries, LAMBDA e : \E j \in 1..Len(RMGet(cfg.unscoped, e.k)) : RMGet(cfg.unscoped, e.k)[j].k = "either")
+KVGroupClause(names) == Cl(names[1], "other", ", \"" \o names[2] \o "\"" \o GroupText, "")
+EvGroupsKV(d, cfg, nameOf(_), swap) ==
+  LET ms == KVMembers(d, cfg) IN
+  IF Len(ms) = 2 /\ \A i \in 1..2 : Zero(ms[i].v)
+  THEN <<KVGroupClause(IF swap THEN <<nameOf(ms[2].k), nameOf(ms[1].k)>> ELSE <<nameOf(ms[1].k), nameOf(ms[2].k)>>)>>
+  ELSE <<>>
 MapField(k) == "map[" \o k \o "]"
+Ident(k) == k
 \* keys the rule map requires and the query lacks (fix a4b66b2), after the clauses of the pairs that are there; the menu
 \* has at most one such key per call, so their mutual order (Go map iteration) does not arise
 MissingReq(d, cfg) ==
@@ -317,9 +336,10 @@ Eval(d, cfg) ==
     [] d.car = "var"    -> EvRules(cfg, "", "", 0, d.val, RMGet(cfg.unscoped, "validVar"))
     [] d.car = "map"    -> FlattenSeq([i \in 1..Len(d.entries) |->
                               EvRules(cfg, "", MapField(d.entries[i].k), 0, d.entries[i].v, RMGet(cfg.unscoped, d.entries[i].k))])
+                           \o EvGroupsKV(d, cfg, MapField, FALSE)
     [] d.car = "url"    -> FlattenSeq([i \in 1..Len(d.entries) |->
                               EvRules(cfg, "", d.entries[i].k, 0, d.entries[i].v, RMGet(cfg.unscoped, d.entries[i].k))])
-                           \o MissingReq(d, cfg)
+                           \o MissingReq(d, cfg) \o EvGroupsKV(d, cfg, Ident, FALSE)
     [] d.car = "split"  -> [i \in 1..Len(d.rules) |-> Cl("", "token", d.rules[i].text, "")]
     [] d.car = "parse"  -> <<Cl(d.rules[1].key, "kv", d.rules[1].val, d.rules[1].lab)>>
 
@@ -333,7 +353,15 @@ IsFree(di) == Universe[di].key \in FreeKeys
 Count(s, x) == Cardinality({i \in 1..Len(s) : s[i] = x})
 BagEq(s, t) == /\ Len(s) = Len(t)
                /\ \A i \in 1..Len(s) : Count(s, s[i]) = Count(t, s[i])
+\* a Map call with a violated group: the members are named in the order the map was walked
+MapAlt(di, ep) == LET d == Universe[di] IN
+                  IF d.car = "map" /\ Len(KVMembers(d, OwnCfgAt(d, ep))) = 2
+                  THEN FlattenSeq([i \in 1..Len(d.entries) |->
+                          EvRules(OwnCfgAt(d, ep), "", MapField(d.entries[i].k), 0, d.entries[i].v, RMGet(OwnCfgAt(d, ep).unscoped, d.entries[i].k))])
+                       \o EvGroupsKV(d, OwnCfgAt(d, ep), MapField, TRUE)
+                  ELSE ExpTableAt[ep][di]
 MatchesAt(di, clauses, ep) == IF IsFree(di) THEN clauses # <<>>
+                              ELSE IF Universe[di].car = "map" /\ BagEq(clauses, MapAlt(di, ep)) THEN TRUE
                               ELSE IF Universe[di].car = "map" THEN BagEq(clauses, ExpTableAt[ep][di]) ELSE clauses = ExpTableAt[ep][di]
 Matches(di, clauses) == MatchesAt(di, clauses, 0)
 
